@@ -132,12 +132,28 @@ func (c *Ctx) ruleExcerpt() {
 			c.fail("EXCERPT/NUMBERING", cons, where, "an excerpt line is not `lines[i]` appended together with its number")
 			continue
 		}
+		// the lines may be visited through a sub-slice (for k, text := range lines[first:last+1]): the element is
+		// lines[first+k]
+		srcBase := ia.X
+		var subLo ssa.Value
+		subbed := false
+		if sl, isSl := ia.X.(*ssa.Slice); isSl && sl.Max == nil {
+			if _, isArr := deref(sl.X.Type()).Underlying().(*types.Array); !isArr {
+				srcBase, subLo, subbed = sl.X, sl.Low, true
+			}
+		}
+		srcIndex := func(lc *linCtx, e linExpr) linExpr { // index into srcBase of the element with index e of ia.X
+			if subbed && subLo != nil {
+				return e.add(lc.of(subLo), 1)
+			}
+			return e
+		}
 		lc := c.newLin(s.b)
-		diff := lc.of(s.num).add(lc.of(ia.Index), -1)
+		diff := lc.of(s.num).add(srcIndex(lc, lc.of(ia.Index)), -1)
 		c.check(diff.isConst() && diff.c == 1, "EXCERPT/NUMBERING", cons, where, "content gets lines[i] and lineNumbers gets i+1, for the same i",
 			"the number stored beside an excerpt line is not (0-based index of that line) + 1: the excerpt line numbered like the diagnostic does not show that source line ["+diff.key()+"]")
 		// the lines are those of the diagnostic's file: getFileLines(<file name parameter>) = split of pass.ReadFile(filename)
-		okSrc := P.RootsAll(ia.X, func(r ssa.Value) bool {
+		okSrc := P.RootsAll(srcBase, func(r ssa.Value) bool {
 			call, ok := r.(*ssa.Call)
 			if !ok || call.Call.StaticCallee() == nil || !strings.HasSuffix(FuncName(call.Call.StaticCallee()), "Reporter).getFileLines") {
 				return false
@@ -148,7 +164,7 @@ func (c *Ctx) ruleExcerpt() {
 			_, isParam := call.Call.Args[1].(*ssa.Parameter)
 			return isParam
 		})
-		c.check(okSrc, "EXCERPT/SOURCE", cons, where, "the lines are getFileLines(<file name of the diagnostic>)", "excerpt lines are not taken from the cached lines of the file named by the diagnostic's position: "+short(P.Desc(ia.X)))
+		c.check(okSrc, "EXCERPT/SOURCE", cons, where, "the lines are getFileLines(<file name of the diagnostic>)", "excerpt lines are not taken from the cached lines of the file named by the diagnostic's position: "+short(P.Desc(srcBase)))
 		// CONTIGUOUS: one append per iteration of a +1 counting loop that is left at its head only
 		var lp *natLoop
 		for _, l := range naturalLoops(wf) {
@@ -182,6 +198,7 @@ func (c *Ctx) ruleExcerpt() {
 		contig := false
 		var initV, bound ssa.Value
 		var strict bool
+		var condOff int64
 		if lp != nil && phi != nil && phi.Block() == lp.head && len(phi.Edges) == 2 {
 			stepOK := false
 			for ei, e := range phi.Edges {
@@ -210,12 +227,31 @@ func (c *Ctx) ruleExcerpt() {
 				}
 			}
 			if ifi, ok := lastInstr(lp.head).(*ssa.If); ok {
-				if bo, ok := ifi.Cond.(*ssa.BinOp); ok && bo.X == ssa.Value(phi) && lp.body[lp.head.Succs[0]] {
-					switch bo.Op {
-					case token.LEQ:
-						bound = bo.Y
-					case token.LSS:
-						bound, strict = bo.Y, true
+				if bo, ok := ifi.Cond.(*ssa.BinOp); ok && lp.body[lp.head.Succs[0]] {
+					// phi + k OP bound (a range loop tests the incremented counter)
+					cv := bo.X
+					for {
+						b2, ok := cv.(*ssa.BinOp)
+						if !ok || (b2.Op != token.ADD && b2.Op != token.SUB) {
+							break
+						}
+						k, isC := constInt(b2.Y)
+						if !isC {
+							break
+						}
+						if b2.Op == token.SUB {
+							k = -k
+						}
+						condOff += k
+						cv = b2.X
+					}
+					if cv == ssa.Value(phi) {
+						switch bo.Op {
+						case token.LEQ:
+							bound = bo.Y
+						case token.LSS:
+							bound, strict = bo.Y, true
+						}
 					}
 				}
 			}
@@ -251,10 +287,10 @@ func (c *Ctx) ruleExcerpt() {
 		}
 		lc2 := c.newLin(pre) // context sizes (before, after) are what the formatter passes; the line is any integer
 		ln := lc2.of(lineParam)
-		nLines := lc2.lenVar(ia.X)
+		nLines := lc2.lenVar(srcBase)
 		lc2.facts = append(lc2.facts, ln.add(linConst(1), -1), geq(nLines, ln)) // 1 <= line <= len(lines)
-		first := lc2.of(initV).add(linConst(idxOff), 1)
-		last := lc2.of(bound).add(linConst(idxOff), 1)
+		first := srcIndex(lc2, lc2.of(initV).add(linConst(idxOff), 1))
+		last := srcIndex(lc2, lc2.of(bound).add(linConst(idxOff-condOff), 1))
 		if strict {
 			last = last.add(linConst(1), -1)
 		}
@@ -272,7 +308,7 @@ func (c *Ctx) ruleExcerpt() {
 			// unreadable: the lines are nil
 			nilCut := P.BlockCutBy(b, func(l Lit) bool {
 				v := nilCheckedValue(l)
-				return v != nil && l.Pos && P.Desc(v) == P.Desc(ia.X)
+				return v != nil && l.Pos && P.Desc(v) == P.Desc(srcBase)
 			})
 			if nilCut {
 				c.ok("EXCERPT/DEGRADE", rcons, P.Pos(r.Pos()), "no excerpt when the file cannot be read")
@@ -280,7 +316,7 @@ func (c *Ctx) ruleExcerpt() {
 			}
 			lc3 := c.newLin(b)
 			l3 := lc3.of(lineParam)
-			n3 := lc3.lenVar(ia.X)
+			n3 := lc3.lenVar(srcBase)
 			lc3.facts = append(lc3.facts, l3.add(linConst(1), -1), geq(n3, l3))
 			if os.Getenv("GGV_LIN_DEBUG") == "excerpt" {
 				for _, f := range lc3.facts {
